@@ -145,6 +145,7 @@ Result run_plan(const Plan &plan, bool verbose) {
     dns_reset();
     event_stub_reset();
     reset_mutex_model();
+    on_sim_exit = nullptr;
     det_rand_seed(plan.seed ^ 0x1111);
     g_run_nontrivial = false;
 
